@@ -17,8 +17,10 @@ impl AppDecodeLevel {
 impl FrameDecodeLevel {
 //@fn rodbus/src/decode.rs | FrameDecodeLevel::enabled | tags=C20
 //@fn rodbus/src/decode.rs | FrameDecodeLevel::header_enabled | tags=C20
+//@fn rodbus/src/decode.rs | FrameDecodeLevel::payload_enabled | tags=C20
 }
 impl PhysDecodeLevel {
 //@fn rodbus/src/decode.rs | PhysDecodeLevel::enabled | tags=C20
 //@fn rodbus/src/decode.rs | PhysDecodeLevel::length_enabled | tags=C20
+//@fn rodbus/src/decode.rs | PhysDecodeLevel::data_enabled | tags=C20
 }
